@@ -29,6 +29,13 @@ theorem ti_frame_all {g : Graph} {s s' : St} (hI : Inv g s) {es : List Ev}
     rw [hpc, htr]
     exact (hI.ti u).frame hno hfd (hce _) (htg _)
 
+theorem subSeen_mono {g : Graph} {s s' : St} {y h : Nat} (htr : ∀ e, e ∈ s.tr → e ∈ s'.tr)
+    (hacc : ∀ u, (s.pc u).accepted = true → (s'.pc u).accepted = true) (hs : subSeen g s y h) :
+    subSeen g s' y h := by
+  rcases hs with ⟨h1, h2⟩ | ⟨h', hh, hr⟩
+  · exact Or.inl ⟨hacc _ h1, htr _ h2⟩
+  · exact Or.inr ⟨h', hh, htr _ hr⟩
+
 theorem YI.frame {g : Graph} {s s' : St} {y : Nat} (h : YI g s y) {es : List Ev}
     (htr : s'.tr = s.tr ++ es) (hfd : FreshDone s.tr es)
     (htg : s'.tg y = s.tg y)
@@ -82,6 +89,33 @@ theorem YI.frame {g : Graph} {s s' : St} {y : Nat} (h : YI g s y) {es : List Ev}
     rcases h.succAcc hr hd hh hf with h1 | h1
     · exact Or.inl (hacc _ h1)
     · exact Or.inr (hce _ h1)
+  · intro hr hh hf
+    rw [htg] at hr
+    exact subSeen_mono (fun e he => by rw [htr]; exact List.mem_append_left _ he) hacc (h.finSub hr hh hf)
+  · intro hr hd hh hf
+    rw [htg] at hr
+    have hb : hasDone s.tr (g.tryd y).body := by
+      rcases Nat.lt_or_ge (s.tg y).rank 5 with h5 | h5
+      · have : ∃ v, s.tg y = .subSucc v := by
+          cases hq : s.tg y <;> simp [hq, TG.rank] at hr h5
+          exact ⟨_, rfl⟩
+        obtain ⟨v, hv⟩ := this
+        exact (h.v v (Or.inr (Or.inr hv))).1
+      · have : s.tg y = .done := by
+          cases hq : s.tg y <;> simp [hq, TG.rank] at h5
+          rfl
+        exact h.dn this
+    rw [hdone false hb] at hd
+    exact subSeen_mono (fun e he => by rw [htr]; exact List.mem_append_left _ he) hacc (h.failSub hr hd hh hf)
+  · intro hr hd hh hf
+    rw [htg] at hr
+    have hb : hasDone s.tr (g.tryd y).body := by
+      have : s.tg y = .done := by
+        cases hq : s.tg y <;> simp [hq, TG.rank] at hr
+        rfl
+      exact h.dn this
+    rw [hdone true hb] at hd
+    exact subSeen_mono (fun e he => by rw [htr]; exact List.mem_append_left _ he) hacc (h.succSub hr hd hh hf)
   · intro h1 h2
     rw [htg] at h1 h2
     rw [hown h1 h2]; exact h.active h1 h2
@@ -152,11 +186,21 @@ theorem i3_same {g : Graph} {s s' : St} (h3 : I3 g s) {es : List Ev} (htr : s'.t
   i3_frame h3 htr (fun u ha _ => ⟨by rw [hpc]; exact ha, fun h => Or.inl (by rw [hpc] at h; exact h)⟩)
     (fun X hX => Or.inl (by rw [hcerr] at hX; exact hX))
 
+/-- the acceptance events of handlers: nothing new, and accepted tasks stay accepted -/
+theorem ha_frame {g : Graph} {s s' : St} (hI : Inv g s) {es : List Ev} (htr : s'.tr = s.tr ++ es)
+    (hno : ∀ h, Ev.hacc h ∉ es) (hacc : ∀ u, (s.pc u).accepted = true → (s'.pc u).accepted = true) :
+    ∀ h, Ev.hacc h ∈ s'.tr → (s'.pc h).accepted = true := by
+  intro h hm
+  rw [htr] at hm
+  rcases List.mem_append.mp hm with hm | hm
+  · exact hacc _ (hI.ha h hm)
+  · exact absurd hm (hno h)
+
 /-! ### The initial state -/
 
 theorem inv_init (g : Graph) : Inv g init := by
   refine ⟨fun u => ?_, fun y _ => ?_, ?_, ?_, ?_, traceOk_nil g, fun y h => by simp [init] at h,
-    fun X h => by simp [init] at h⟩
+    fun X h => by simp [init] at h, fun h hm => by simp [init] at hm⟩
   · constructor <;> simp [init, PC.accepted, issued, returned, okUpTo, hasDone, acceptedEv]
     · split <;> simp
   · constructor <;> simp [init, TG.rank]
@@ -198,7 +242,7 @@ theorem inv_move {g : Graph} {s s' : St} (hI : Inv g s) {t : Nat} {q : PC} {es :
     (hce : ∀ X, s.cerr X = true → s'.cerr X = true)
     (hi2 : ∀ X, s'.cerr X = true → s.cerr X = true ∨ causeIn g X s'.tr ∨ causeIn g 0 s'.tr)
     (hok : ∀ e ∈ es, Ok g s.tr e)
-    (hnoacc : ∀ u, Ev.acc u ∉ es ∧ Ev.rej u ∉ es)
+    (hnoacc : ∀ u, Ev.acc u ∉ es ∧ Ev.rej u ∉ es ∧ Ev.hacc u ∉ es)
     (hpar : ∀ u, u ≠ t → (s.pc u).accepted = true → s.pc u ≠ .finished → parentAt g s u → parentAt g s' u)
     (hpart : q ≠ .finished → parentAt g s' t)
     (hown : ∀ y, y < g.tries.length → s.tg y ≠ .idle → s.tg y ≠ .done → (g.tryd y).owner ≠ t)
@@ -207,7 +251,8 @@ theorem inv_move {g : Graph} {s s' : St} (hI : Inv g s) {t : Nat} {q : PC} {es :
     (hfin3 : q = .finished → s.cerr (g.ctx t) = true → Ev.done t false ∈ s'.tr) :
     Inv g s' := by
   have hne : s.pc t ≠ .idle := by intro h; rw [h] at hacc; simp [PC.accepted] at hacc
-  refine ⟨?_, ?_, ?_, ?_, ?_, ?_, ?_, ?_⟩
+  refine ⟨?_, ?_, ?_, ?_, ?_, ?_, ?_, ?_, ha_frame hI htr (fun u => (hnoacc u).2.2)
+    (fun u hu => by rw [hpc]; exact accepted_upd (fun _ => hqacc) u hu)⟩
   · apply ti_frame_all hI htr hfd hce (fun y => by rw [htg]; exact Nat.le_refl _) (fun u => u = t)
     · intro u hu
       exact ⟨by rw [hpc]; exact upd_other _ _ hu, hev u hu⟩
@@ -228,7 +273,7 @@ theorem inv_move {g : Graph} {s s' : St} (hI : Inv g s) {t : Nat} {q : PC} {es :
       exact hpart hf
     · rw [hpc, upd_other _ _ hu] at ha hf
       exact hpar u hu ha hf (hI.x3 u ha hf)
-  · exact hI.mi.frame htr hmp hnoacc
+  · exact hI.mi.frame htr hmp (fun u => ⟨(hnoacc u).1, (hnoacc u).2.1⟩)
   · exact i2_frame hI htr hi2
   · rw [htr]; exact traceOk_ext hI.ok hlen hok
   · rw [htg]; exact hI.tgr
@@ -257,7 +302,7 @@ theorem inv_move_na {g : Graph} {s s' : St} (hI : Inv g s) {t : Nat} {q : PC} {e
     (hce : ∀ X, s.cerr X = true → s'.cerr X = true)
     (hi2 : ∀ X, s'.cerr X = true → s.cerr X = true ∨ causeIn g X s'.tr ∨ causeIn g 0 s'.tr)
     (hok : ∀ e ∈ es, Ok g s.tr e)
-    (hnoacc : ∀ u, Ev.acc u ∉ es ∧ Ev.rej u ∉ es)
+    (hnoacc : ∀ u, Ev.acc u ∉ es ∧ Ev.rej u ∉ es ∧ Ev.hacc u ∉ es)
     (hnr : ∀ y, y < g.tries.length → Ev.ret (g.tryd y).owner (g.tryd y).idx true ∈ es → s.tg y ≠ .idle)
     (hi3 : ∀ X, s'.cerr X = true → s.cerr X = true ∨ (X = g.ctx t ∧ q ≠ .finished))
     (hfin3 : q = .finished → s.cerr (g.ctx t) = true → Ev.done t false ∈ s'.tr) :
@@ -838,12 +883,37 @@ theorem handler_facts {g : Graph} (hw : WF g) {y h : Nat} (hy : y < g.tries.leng
 theorem not_parentAt {g : Graph} {s : St} {u p i : Nat} (hp : parentOf g u = some (p, i))
     (hn : s.pc p ≠ .afterCmd i) : ¬ parentAt g s u := fun h => hn (h p i hp)
 
+/-- a task that closed without error had entered its first command -/
+theorem cmd0_of_done_true {g : Graph} (hw : WF g) {tr : List Ev} (hok : TraceOk g tr) {h : Nat} (hn : h < g.n)
+    (hd : Ev.done h true ∈ tr) : Ev.cmd h 0 ∈ tr := by
+  obtain ⟨pre, post, hs, hk⟩ := traceOk_mem hok hd
+  have h0 : 0 < (g.body h).length := List.length_pos_iff.mpr (hw.body h hn)
+  have h3 := hk.2.2
+  simp only [if_true] at h3
+  have hret := (h3.2 0 (List.mem_range.mpr h0)).1
+  have hpre : TraceOk g pre := traceOk_prefix (b := Ev.done h true :: post) (by rw [← hs]; exact hok)
+  rw [hs]; exact List.mem_append_left _ (cmd_of_ret hpre hret)
+
+theorem mem_selected {g : Graph} {tr : List Ev} {y h : Nat} (hsel : h ∈ selected g tr y) :
+    (g.tryd y).fin = some h ∨ (Ev.done (g.tryd y).body false ∈ tr ∧ (g.tryd y).fail = some h) ∨
+    (Ev.done (g.tryd y).body true ∈ tr ∧ (g.tryd y).succ = some h) := by
+  unfold selected at hsel
+  simp only [List.mem_append, Option.mem_toList] at hsel
+  rcases hsel with (h1 | h1) | h1
+  · exact Or.inl h1
+  · split at h1
+    · rename_i hd; exact Or.inr (Or.inl ⟨hd, by simpa using h1⟩)
+    · simp at h1
+  · split at h1
+    · rename_i hd; exact Or.inr (Or.inr ⟨hd, by simpa using h1⟩)
+    · simp at h1
+
 /-- what a task that is no longer blocked at command `i` knows about a try block it started there -/
 theorem try_closed {g : Graph} {s : St} (hw : WF g) (hI : Inv g s) {t i y : Nat}
     (hcmd : g.cmdAt t i = some (.try_ y)) (hret : Ev.ret t i true ∈ s.tr) (hna : s.pc t ≠ .afterCmd i) :
     hasDone s.tr (g.tryd y).body ∧
-    (∀ h ∈ g.handlers y, Ev.cmd h 0 ∈ s.tr → hasDone s.tr h) ∧
-    (∀ h ∈ selected g s.tr y, Ev.cmd h 0 ∈ s.tr ∨ causeFor g s.tr t) := by
+    (∀ h ∈ g.handlers y, (Ev.cmd h 0 ∈ s.tr ∨ Ev.hacc h ∈ s.tr) → hasDone s.tr h) ∧
+    (∀ h ∈ selected g s.tr y, handlerFate g s.tr y h) := by
   have ht : t < g.n := by
     rcases Nat.lt_or_ge t g.n with h | h
     · exact h
@@ -868,8 +938,11 @@ theorem try_closed {g : Graph} {s : St} (hw : WF g) (hI : Inv g s) {t i y : Nat}
     exact not_parentAt (handler_facts hw hy hh).2.2 hown
   refine ⟨hbd, ?_, ?_⟩
   · intro h hh hc
-    have := hfin h hh (accepted_of_cmd hI hc)
-    exact ((hI.ti h).fin this).1
+    have ha : (s.pc h).accepted = true := by
+      rcases hc with hc | hc
+      · exact accepted_of_cmd hI hc
+      · exact hI.ha h hc
+    exact ((hI.ti h).fin (hfin h hh ha)).1
   · -- the try goroutine is done
     have Y := hI.yi y hy
     have hst : s.tg y ≠ .idle := Y.started' (by rw [ho, hi]; exact hret)
@@ -879,38 +952,26 @@ theorem try_closed {g : Graph} {s : St} (hw : WF g) (hI : Inv g s) {t i y : Nat}
       · exact absurd (Y.active hst h) hown
     have hrank : (s.tg y).rank = 5 := by rw [hdn]; rfl
     intro h hsel
-    have hacc_or : (s.pc h).accepted = true ∨ s.cerr (g.ctx (g.tryd y).owner) = true := by
-      unfold selected at hsel
-      simp only [List.mem_append, Option.mem_toList] at hsel
-      rcases hsel with (h1 | h1) | h1
-      · exact Y.finAcc (by omega) h h1
-      · split at h1
-        · rename_i hd; exact Y.failAcc (by omega) hd h (by simpa using h1)
-        · simp at h1
-      · split at h1
-        · rename_i hd; exact Y.succAcc (by omega) hd h (by simpa using h1)
-        · simp at h1
+    have hsub : subSeen g s y h := by
+      rcases mem_selected hsel with h1 | ⟨hd, h1⟩ | ⟨hd, h1⟩
+      · exact Y.finSub (by omega) h h1
+      · exact Y.failSub (by omega) hd h h1
+      · exact Y.succSub (by omega) hd h h1
     have hhand : h ∈ g.handlers y := by
-      unfold selected at hsel
-      simp only [List.mem_append, Option.mem_toList] at hsel
       apply mem_handlers.mpr
-      rcases hsel with (h1 | h1) | h1
+      rcases mem_selected hsel with h1 | ⟨_, h1⟩ | ⟨_, h1⟩
       · exact Or.inl h1
-      · split at h1
-        · exact Or.inr (Or.inl (by simpa using h1))
-        · simp at h1
-      · split at h1
-        · exact Or.inr (Or.inr (by simpa using h1))
-        · simp at h1
-    have hcause : s.cerr (g.ctx (g.tryd y).owner) = true → causeFor g s.tr t := by
-      intro hc; rw [ho] at hc; exact hI.i2 _ hc
-    rcases hacc_or with ha | hc
+      · exact Or.inr (Or.inl h1)
+      · exact Or.inr (Or.inr h1)
+    rcases hsub with ⟨ha, hac⟩ | hr
     · have hf := hfin h hhand ha
-      rcases ((hI.ti h).fin hf).2 with h1 | h1
-      · exact Or.inl h1
-      · rw [(handler_facts hw hy hhand).2.1] at h1
-        exact Or.inr (hcause h1)
-    · exact Or.inr (hcause hc)
+      by_cases hc0 : Ev.cmd h 0 ∈ s.tr
+      · exact Or.inl hc0
+      · refine Or.inr (Or.inl ⟨hac, ?_⟩)
+        rcases ((hI.ti h).fin hf).1 with hd | hd
+        · exact absurd (cmd0_of_done_true hw hI.ok (handler_facts hw hy hhand).1 hd) hc0
+        · exact hd
+    · exact Or.inr (Or.inr hr)
 
 theorem spawn_closed {g : Graph} {s : St} (hw : WF g) (hI : Inv g s) {t i c : Nat}
     (hcmd : g.cmdAt t i = some (.spawn c)) (hret : Ev.ret t i true ∈ s.tr) (hna : s.pc t ≠ .afterCmd i) :
@@ -1488,7 +1549,14 @@ theorem inv_spawn {g : Graph} {s s' : St} (hw : WF g) (hI : Inv g s) {t i c : Na
           exact Or.inr ⟨t, hXe.symm, by rw [hpct]; rfl, by rw [hpct]; simp⟩
         · exact Or.inl hX
       · exact Or.inl hX
-  refine ⟨?_, ?_, ?_, ?_, ?_, ?_, by rw [htg']; exact hI.tgr, hi3⟩
+  have haccm0 : ∀ u, (s.pc u).accepted = true → (s'.pc u).accepted = true := by
+    intro u hu
+    by_cases h1 : u = t
+    · subst h1; rw [hpct]; cases acc <;> rfl
+    · by_cases h2 : u = c
+      · subst h2; rw [hcidle] at hu; cases hu
+      · rw [hpcO u h1 h2]; exact hu
+  refine ⟨?_, ?_, ?_, ?_, ?_, ?_, by rw [htg']; exact hI.tgr, hi3, ha_frame hI htr' (by simp) haccm0⟩
   · apply ti_frame_all hI htr' hfd hce (fun _ => by rw [htg']; exact Nat.le_refl _) (fun u => u = t ∨ u = c)
     · intro u hu
       have h1 : u ≠ t := fun h => hu (Or.inl h)
@@ -1678,7 +1746,7 @@ theorem inv_try {g : Graph} {s s' : St} (hw : WF g) (hI : Inv g s) {t i y : Nat}
           exact Or.inr ⟨t, hXe.symm, by rw [hpct]; rfl, by rw [hpct]; simp⟩
         · exact Or.inl hX
       · exact Or.inl hX
-  refine ⟨?_, ?_, ?_, ?_, ?_, ?_, htgr, hi3⟩
+  refine ⟨?_, ?_, ?_, ?_, ?_, ?_, htgr, hi3, ha_frame hI htr' (by simp) haccm⟩
   · apply ti_frame_all hI htr' hfd hce htgm (fun u => u = t ∨ u = (g.tryd y).body)
     · intro u hu
       have h1 : u ≠ t := fun h => hu (Or.inl h)
@@ -1746,6 +1814,9 @@ theorem inv_try {g : Graph} {s s' : St} (hw : WF g) (hI : Inv g s) {t i y : Nat}
         · intro _; rw [hpcc]; rfl
         · intro v hv; rw [htgz] at hv; rcases hv with h | h | h <;> cases h
         · intro h; rw [htgz] at h; cases h
+        · intro h; rw [htgz] at h; simp [TG.rank] at h
+        · intro h; rw [htgz] at h; simp [TG.rank] at h
+        · intro h; rw [htgz] at h; simp [TG.rank] at h
         · intro h; rw [htgz] at h; simp [TG.rank] at h
         · intro h; rw [htgz] at h; simp [TG.rank] at h
         · intro h; rw [htgz] at h; simp [TG.rank] at h
@@ -1862,7 +1933,8 @@ theorem inv_tg_only {g : Graph} {s s' : St} (hI : Inv g s) {y : Nat} {q : TG}
     intro z; rw [htg', upd_apply]; split
     · rename_i h; subst h; exact hrk
     · exact Nat.le_refl _
-  refine ⟨?_, ?_, ?_, ?_, ?_, ?_, ?_, i3_same hI.i3 (es := []) (by simp [htr']) hpc' hcerr'⟩
+  refine ⟨?_, ?_, ?_, ?_, ?_, ?_, ?_, i3_same hI.i3 (es := []) (by simp [htr']) hpc' hcerr',
+    ha_frame hI (es := []) (by simp [htr']) (by simp) (by rw [hpc']; exact fun _ h => h)⟩
   · apply ti_frame_all hI (es := []) (by simp [htr']) (freshDone_nil _) (by rw [hcerr']; exact fun _ h => h)
       htgm (fun _ => False)
     · intro u _; exact ⟨by rw [hpc'], by simp⟩
@@ -1912,6 +1984,9 @@ theorem inv_Y1 {g : Graph} {s : St} (hI : Inv g s) {y : Nat} (htg : s.tg y = .wa
     · intro h; rw [htgz] at h; simp [TG.rank] at h
     · intro h; rw [htgz] at h; simp [TG.rank] at h
     · intro h; rw [htgz] at h; simp [TG.rank] at h
+    · intro h; rw [htgz] at h; simp [TG.rank] at h
+    · intro h; rw [htgz] at h; simp [TG.rank] at h
+    · intro h; rw [htgz] at h; simp [TG.rank] at h
     · intro _ _; rw [hpc]; exact Y.active hne1 hne2
     · intro _; rw [htgz]; simp
   exact key _ (upd_same _ _ _) rfl rfl
@@ -1930,13 +2005,14 @@ structure HandlerAt (g : Graph) (s : St) (y : Nat) (next : TG) (sel : Bool) (hh 
   cr : ∀ tr tgv, created g tr tgv hh ↔ next.rank ≤ tgv.rank
   sb : sel = true → submitted g s.tr hh
   na : ∀ tr, ¬ acceptedEv g tr hh
+  ih : isHandler g hh = true
 
 /-- a selected handler is accepted -/
 theorem inv_handler_acc {g : Graph} {s s' : St} (hI : Inv g s) {y hh : Nat} {next : TG}
     (H : HandlerAt g s y next true hh) (hrk : (s.tg y).rank + 1 = next.rank) (hnid : s.tg y ≠ .idle)
     (hact : s.pc (g.tryd y).owner = .afterCmd (g.tryd y).idx)
     (hpc' : s'.pc = upd s.pc hh (.waiting 0)) (htg' : s'.tg = upd s.tg y next)
-    (hcerr' : s'.cerr = s.cerr) (htr' : s'.tr = s.tr) (hmp' : s'.mp = s.mp)
+    (hcerr' : s'.cerr = s.cerr) (htr' : s'.tr = s.tr ++ [.hacc hh]) (hmp' : s'.mp = s.mp)
     (hY : YI g s' y) : Inv g s' := by
   have hcidle : s.pc hh = .idle := by
     apply idle_of_not_created hI
@@ -1948,8 +2024,11 @@ theorem inv_handler_acc {g : Graph} {s s' : St} (hI : Inv g s) {y hh : Nat} {nex
     intro z; rw [htg', upd_apply]; split
     · rename_i h; subst h; omega
     · exact Nat.le_refl _
-  have htr0 : s'.tr = s.tr ++ [] := by simp [htr']
+  have htr0 := htr'
+  have hfd0 : FreshDone s.tr [Ev.hacc hh] := by intro u b h; simp at h
   have hce : ∀ X, s.cerr X = true → s'.cerr X = true := by rw [hcerr']; exact fun _ h => h
+  have haccm : ∀ u, (s.pc u).accepted = true → (s'.pc u).accepted = true := by
+    intro u hu; rw [hpc']; exact accepted_upd (by rw [hcidle]; intro h; cases h) u hu
   have htgr : ∀ z, s'.tg z ≠ .idle → z < g.tries.length := by
     intro z hz
     by_cases hzy : z = y
@@ -1962,25 +2041,30 @@ theorem inv_handler_acc {g : Graph} {s s' : St} (hI : Inv g s) {y hh : Nat} {nex
       · subst h1; rw [hcidle] at ha; cases ha
       · rw [hpc', upd_other _ _ h1]; exact ⟨ha, fun h => Or.inl h⟩
     · intro X hX; rw [hcerr'] at hX; exact Or.inl hX
-  refine ⟨?_, ?_, ?_, ?_, ?_, ?_, htgr, hi3⟩
-  · refine ti_frame_all hI htr0 (freshDone_nil _) hce htgm (fun u => u = hh) ?_ ?_
-    · intro u hu; exact ⟨by rw [hpc', upd_other _ _ hu], by simp⟩
+  have hha : ∀ h, Ev.hacc h ∈ s'.tr → (s'.pc h).accepted = true := by
+    intro h hm
+    rw [htr'] at hm
+    rcases List.mem_append.mp hm with hm | hm
+    · exact haccm _ (hI.ha h hm)
+    · simp at hm; subst hm; rw [hpc', upd_same]; rfl
+  refine ⟨?_, ?_, ?_, ?_, ?_, ?_, htgr, hi3, hha⟩
+  · refine ti_frame_all hI htr0 hfd0 hce htgm (fun u => u = hh) ?_ ?_
+    · intro u hu
+      exact ⟨by rw [hpc', upd_other _ _ hu], by intro e he; simp at he; subst he; simp [touches]; exact fun h => hu h.symm⟩
     · intro u hu; subst hu
       unfold TIs
       rw [hpc', upd_same, htg', H.tof, upd_same, htr', hcerr']
-      have := C.create (es := []) (q := .waiting 0) (ce' := s.cerr (g.ctx u)) (tgv' := next)
+      exact C.create (es := [.hacc u]) (q := .waiting 0) (ce' := s.cerr (g.ctx u)) (tgv' := next)
         (Or.inl rfl) H.lt (by rw [H.cr]; exact Nat.le_refl _)
-        (fun _ => by simpa using H.sb rfl) (fun _ hn => absurd hn H.nn)
+        (fun _ => submitted_mono _ (H.sb rfl)) (fun _ hn => absurd hn H.nn)
         (fun h => by cases h) (by simp) (fun h => h)
-      simpa using this
   · intro z hz
     by_cases hzy : z = y
     · subst hzy; exact hY
-    · refine (hI.yi z hz).frame htr0 (freshDone_nil _) (by rw [htg', upd_other _ _ hzy]) hce ?_ ?_ (by simp)
-      · intro u hu; rw [hpc']; exact accepted_upd (by rw [hcidle]; intro h; cases h) u hu
-      · intro h1 h2
-        have := (hI.yi z hz).active h1 h2
-        rw [hpc']; apply upd_other; intro h; rw [h, hcidle] at this; cases this
+    · refine (hI.yi z hz).frame htr0 hfd0 (by rw [htg', upd_other _ _ hzy]) hce haccm ?_ (by simp)
+      intro h1 h2
+      have := (hI.yi z hz).active h1 h2
+      rw [hpc']; apply upd_other; intro h; rw [h, hcidle] at this; cases this
   · apply x3_general hI hh
     · intro u hu ha hf
       rw [hpc', upd_other _ _ hu] at ha hf; exact ⟨ha, hf⟩
@@ -1992,7 +2076,7 @@ theorem inv_handler_acc {g : Graph} {s s' : St} (hI : Inv g s) {y hh : Nat} {nex
       rw [hpc', upd_other _ _ hown_ne]; exact hact
   · exact hI.mi.frame htr0 hmp' (by simp)
   · exact i2_frame hI htr0 (fun X hX => Or.inl (by rw [hcerr'] at hX; exact hX))
-  · rw [htr']; exact hI.ok
+  · rw [htr']; exact traceOk_snoc hI.ok ⟨H.ih, H.sb rfl⟩
 
 /-- a selected handler is refused because the root scope is done -/
 theorem inv_handler_rej {g : Graph} {s s' : St} (hI : Inv g s) {y hh : Nat} {next : TG}
@@ -2000,7 +2084,8 @@ theorem inv_handler_rej {g : Graph} {s s' : St} (hI : Inv g s) {y hh : Nat} {nex
     (hnid : s.tg y ≠ .idle)
     (hact : s.pc (g.tryd y).owner = .afterCmd (g.tryd y).idx) (hroot : s.cerr 0 = true)
     (hpc' : s'.pc = upd s.pc hh .rejected) (htg' : s'.tg = upd s.tg y .done)
-    (hcerr' : s'.cerr = upd s.cerr (g.ctx (g.tryd y).owner) true) (htr' : s'.tr = s.tr) (hmp' : s'.mp = s.mp)
+    (hcerr' : s'.cerr = upd s.cerr (g.ctx (g.tryd y).owner) true) (htr' : s'.tr = s.tr ++ [.hrej hh])
+    (hmp' : s'.mp = s.mp)
     (hY : YI g s' y) : Inv g s' := by
   have hcidle : s.pc hh = .idle := by
     apply idle_of_not_created hI
@@ -2013,15 +2098,23 @@ theorem inv_handler_rej {g : Graph} {s s' : St} (hI : Inv g s) {y hh : Nat} {nex
       show _ ≤ 5
       omega
     · exact Nat.le_refl _
-  have htr0 : s'.tr = s.tr ++ [] := by simp [htr']
+  have htr0 := htr'
+  have hfd0 : FreshDone s.tr [Ev.hrej hh] := by intro u b h; simp at h
   have hce : ∀ X, s.cerr X = true → s'.cerr X = true := by
     intro X h; rw [hcerr', upd_apply]; split <;> simp [h]
+  have haccm : ∀ u, (s.pc u).accepted = true → (s'.pc u).accepted = true := by
+    intro u hu
+    rw [hpc', upd_apply]; split
+    · rename_i h; subst h; rw [hcidle] at hu; cases hu
+    · exact hu
   have htgr : ∀ z, s'.tg z ≠ .idle → z < g.tries.length := by
     intro z hz
     by_cases hzy : z = y
     · subst hzy; exact hI.tgr z hnid
     · rw [htg', upd_other _ _ hzy] at hz; exact hI.tgr z hz
   have hown_ne : (g.tryd y).owner ≠ hh := by intro h; rw [h, hcidle] at hact; cases hact
+  have hroot0 : causeIn g 0 s.tr := by
+    rcases hI.i2 0 hroot with h | h <;> exact h
   have hi3 : I3 g s' := by
     apply i3_frame hI.i3 htr0
     · intro u ha _
@@ -2036,28 +2129,23 @@ theorem inv_handler_rej {g : Graph} {s s' : St} (hI : Inv g s) {y hh : Nat} {nex
         · rw [hpc', upd_other _ _ hown_ne, hact]; rfl
         · rw [hpc', upd_other _ _ hown_ne, hact]; simp
       · exact Or.inl hX
-  refine ⟨?_, ?_, ?_, ?_, ?_, ?_, htgr, hi3⟩
-  · refine ti_frame_all hI htr0 (freshDone_nil _) hce htgm (fun u => u = hh) ?_ ?_
-    · intro u hu; exact ⟨by rw [hpc', upd_other _ _ hu], by simp⟩
+  refine ⟨?_, ?_, ?_, ?_, ?_, ?_, htgr, hi3, ha_frame hI htr0 (by simp) haccm⟩
+  · refine ti_frame_all hI htr0 hfd0 hce htgm (fun u => u = hh) ?_ ?_
+    · intro u hu; exact ⟨by rw [hpc', upd_other _ _ hu], by simp [touches]⟩
     · intro u hu; subst hu
       unfold TIs
       rw [hpc', upd_same, htg', H.tof, upd_same, htr']
-      have := C.create (es := []) (q := .rejected) (ce' := s'.cerr (g.ctx u)) (tgv' := .done)
+      exact C.create (es := [.hrej u]) (q := .rejected) (ce' := s'.cerr (g.ctx u)) (tgv' := .done)
         (Or.inr rfl) H.lt (by rw [H.cr]; exact hn5)
         (fun h => by cases h) (fun h => by cases h)
         (fun _ => H.na _) (by simp) (hce _)
-      simpa using this
   · intro z hz
     by_cases hzy : z = y
     · subst hzy; exact hY
-    · refine (hI.yi z hz).frame htr0 (freshDone_nil _) (by rw [htg', upd_other _ _ hzy]) hce ?_ ?_ (by simp)
-      · intro u hu
-        rw [hpc', upd_apply]; split
-        · rename_i h; subst h; rw [hcidle] at hu; cases hu
-        · exact hu
-      · intro h1 h2
-        have := (hI.yi z hz).active h1 h2
-        rw [hpc']; apply upd_other; intro h; rw [h, hcidle] at this; cases this
+    · refine (hI.yi z hz).frame htr0 hfd0 (by rw [htg', upd_other _ _ hzy]) hce haccm ?_ (by simp)
+      intro h1 h2
+      have := (hI.yi z hz).active h1 h2
+      rw [hpc']; apply upd_other; intro h; rw [h, hcidle] at this; cases this
   · apply x3_general hI hh
     · intro u hu ha hf
       rw [hpc', upd_other _ _ hu] at ha hf; exact ⟨ha, hf⟩
@@ -2071,12 +2159,16 @@ theorem inv_handler_rej {g : Graph} {s s' : St} (hI : Inv g s) {y hh : Nat} {nex
     intro X hX
     rw [hcerr', upd_apply] at hX
     split at hX
-    · rw [htr']
-      rcases hI.i2 0 hroot with h | h
-      · exact Or.inr (Or.inr h)
-      · exact Or.inr (Or.inr h)
+    · rw [htr']; exact Or.inr (Or.inr (causeIn_mono _ hroot0))
     · exact Or.inl hX
-  · rw [htr']; exact hI.ok
+  · rw [htr']; exact traceOk_snoc hI.ok ⟨H.ih, H.sb rfl, hroot0⟩
+
+/-- what is known after one `Runner.Run` of a handler (or its omission): either the try goroutine
+moved on and the handler (if it was to be run) exists and its acceptance is in the trace, or the
+submission was refused, which is in the trace as well -/
+def SubOut (g : Graph) (s' : St) (y : Nat) (next : TG) (ho : Option Nat) (sel : Bool) : Prop :=
+  (s'.tg y = next ∧ ∀ hh, ho = some hh → sel = true → (s'.pc hh).accepted = true ∧ Ev.hacc hh ∈ s'.tr) ∨
+  (s'.tg y = .done ∧ s'.cerr (g.ctx (g.tryd y).owner) = true ∧ ∃ hh, ho = some hh ∧ Ev.hrej hh ∈ s'.tr)
 
 /-- Y2–Y4: one `Runner.Run` of a handler (or its omission) from the try goroutine -/
 theorem inv_submitHandler {g : Graph} {s : St} (hI : Inv g s) {y : Nat} (hy : y < g.tries.length)
@@ -2089,14 +2181,19 @@ theorem inv_submitHandler {g : Graph} {s : St} (hI : Inv g s) {y : Nat} (hy : y 
     (hAcc : ∀ s', s' = submitHandler g s y ho sel next →
       (∀ u, (s.pc u).accepted = true → (s'.pc u).accepted = true) →
       (∀ X, s.cerr X = true → s'.cerr X = true) →
-      ((s'.tg y = next ∧ ∀ hh, ho = some hh → sel = true → (s'.pc hh).accepted = true) ∨
-       (s'.tg y = .done ∧ s'.cerr (g.ctx (g.tryd y).owner) = true)) →
+      (∀ e, e ∈ s.tr → e ∈ s'.tr) →
+      SubOut g s' y next ho sel →
       (3 ≤ (s'.tg y).rank → ∀ h, (g.tryd y).fin = some h →
           (s'.pc h).accepted = true ∨ s'.cerr (g.ctx (g.tryd y).owner) = true) ∧
       (4 ≤ (s'.tg y).rank → Ev.done (g.tryd y).body false ∈ s.tr → ∀ h, (g.tryd y).fail = some h →
           (s'.pc h).accepted = true ∨ s'.cerr (g.ctx (g.tryd y).owner) = true) ∧
       (5 ≤ (s'.tg y).rank → Ev.done (g.tryd y).body true ∈ s.tr → ∀ h, (g.tryd y).succ = some h →
-          (s'.pc h).accepted = true ∨ s'.cerr (g.ctx (g.tryd y).owner) = true)) :
+          (s'.pc h).accepted = true ∨ s'.cerr (g.ctx (g.tryd y).owner) = true) ∧
+      (3 ≤ (s'.tg y).rank → ∀ h, (g.tryd y).fin = some h → subSeen g s' y h) ∧
+      (4 ≤ (s'.tg y).rank → Ev.done (g.tryd y).body false ∈ s.tr → ∀ h, (g.tryd y).fail = some h →
+          subSeen g s' y h) ∧
+      (5 ≤ (s'.tg y).rank → Ev.done (g.tryd y).body true ∈ s.tr → ∀ h, (g.tryd y).succ = some h →
+          subSeen g s' y h)) :
     Inv g (submitHandler g s y ho sel next) := by
   have Y := hI.yi y hy
   have hne1 : s.tg y ≠ .idle := by rw [hcur]; rcases hcurv with h | h | h <;> subst h <;> simp
@@ -2108,35 +2205,43 @@ theorem inv_submitHandler {g : Graph} {s : St} (hI : Inv g s) {y : Nat} (hy : y 
   have hnextne : next ≠ .idle ∧ next ≠ .waitBody := by
     rcases hnext with h | h | h <;> subst h <;> simp
   -- YI at the new state, given the generic facts about it
-  have mkY : ∀ s' : St, s' = submitHandler g s y ho sel next → s'.tr = s.tr →
+  have mkY : ∀ (s' : St) (es : List Ev), s' = submitHandler g s y ho sel next → s'.tr = s.tr ++ es →
+      (∀ u b, Ev.done u b ∉ es) →
       (∀ u, (s.pc u).accepted = true → (s'.pc u).accepted = true) →
       (∀ X, s.cerr X = true → s'.cerr X = true) →
-      ((s'.tg y = next ∧ ∀ hh, ho = some hh → sel = true → (s'.pc hh).accepted = true) ∨
-       (s'.tg y = .done ∧ s'.cerr (g.ctx (g.tryd y).owner) = true)) →
+      SubOut g s' y next ho sel →
       (s'.tg y ≠ .done → s'.pc (g.tryd y).owner = s.pc (g.tryd y).owner) → YI g s' y := by
-    intro s' hs' htr hm1 hm2 hout hown
+    intro s' es hs' htr hes hm1 hm2 hout hown
     have htgn : s'.tg y = next ∨ s'.tg y = .done := by
       rcases hout with h | h
       · exact Or.inl h.1
       · exact Or.inr h.1
-    obtain ⟨a1, a2, a3⟩ := hAcc s' hs' hm1 hm2 hout
+    have hfd : FreshDone s.tr es := fun u b h => absurd h (hes u b)
+    have hmem : ∀ e, e ∈ s.tr → e ∈ s'.tr := fun e he => by rw [htr]; exact List.mem_append_left _ he
+    have hdone : ∀ b, Ev.done (g.tryd y).body b ∈ s'.tr ↔ Ev.done (g.tryd y).body b ∈ s.tr := by
+      intro b; rw [htr]; exact done_stable hfd hv.1 b
+    obtain ⟨a1, a2, a3, a4, a5, a6⟩ := hAcc s' hs' hm1 hm2 hmem hout
     constructor
-    · intro _; rw [htr]; exact Y.started hne1
+    · intro _; exact hmem _ (Y.started hne1)
     · intro h; rcases htgn with h1 | h1 <;> rw [h1] at h
       · exact absurd h hnextne.2
       · cases h
     · intro v' hv'
-      rw [htr]
+      have hv2 : hasDone s'.tr (g.tryd y).body ∧ (v = true ↔ Ev.done (g.tryd y).body true ∈ s'.tr) :=
+        ⟨by rw [htr]; exact hasDone_mono es hv.1, by rw [hdone true]; exact hv.2⟩
       rcases htgn with h1 | h1 <;> rw [h1] at hv'
       · rcases hnext with h2 | h2 | h2 <;> subst h2
-        · rcases hv' with h | h | h <;> cases h; exact hv
-        · rcases hv' with h | h | h <;> cases h; exact hv
+        · rcases hv' with h | h | h <;> cases h; exact hv2
+        · rcases hv' with h | h | h <;> cases h; exact hv2
         · rcases hv' with h | h | h <;> cases h
       · rcases hv' with h | h | h <;> cases h
-    · intro _; rw [htr]; exact hv.1
+    · intro _; rw [htr]; exact hasDone_mono es hv.1
     · exact a1
-    · rw [htr]; exact a2
-    · rw [htr]; exact a3
+    · intro hr hd; rw [hdone false] at hd; exact a2 hr hd
+    · intro hr hd; rw [hdone true] at hd; exact a3 hr hd
+    · exact a4
+    · intro hr hd; rw [hdone false] at hd; exact a5 hr hd
+    · intro hr hd; rw [hdone true] at hd; exact a6 hr hd
     · intro _ h2; rw [hown h2]; exact hact
     · intro _ h
       rcases htgn with h1 | h1 <;> rw [h1] at h
@@ -2150,7 +2255,7 @@ theorem inv_submitHandler {g : Graph} {s : St} (hI : Inv g s) {y : Nat} (hy : y 
     rw [hs']
     refine inv_tg_only (s' := { s with tg := upd s.tg y next }) hI (y := y) rfl rfl rfl rfl rfl (by omega) hne1 ?_
     intro _
-    apply mkY _ hs'.symm rfl (fun _ h => h) (fun _ h => h)
+    apply mkY _ [] hs'.symm (by simp) (by simp) (fun _ h => h) (fun _ h => h)
       (Or.inl ⟨upd_same _ _ _, fun hh h1 h2 => (hvac hh h1 h2).elim⟩)
     intro _; rfl
   cases ho with
@@ -2166,24 +2271,28 @@ theorem inv_submitHandler {g : Graph} {s : St} (hI : Inv g s) {y : Nat} (hy : y 
     have hown_ne : (g.tryd y).owner ≠ hh := by intro h; rw [h, hcidle] at hact; cases hact
     by_cases hcan : canCreate g s hh = true
     · have hs' : submitHandler g s y (some hh) true next =
-          { s with pc := upd s.pc hh (.waiting 0), tg := upd s.tg y next } := by
+          emit { s with pc := upd s.pc hh (.waiting 0), tg := upd s.tg y next } (.hacc hh) := by
         unfold submitHandler; simp [hcan]
       rw [hs']
       refine inv_handler_acc hI H (by omega) hne1 hact rfl rfl rfl rfl rfl ?_
-      apply mkY _ hs'.symm rfl
+      apply mkY _ [.hacc hh] hs'.symm rfl (by simp)
         (fun u hu => accepted_upd (by rw [hcidle]; intro h; cases h) u hu) (fun _ h => h)
-        (Or.inl ⟨upd_same _ _ _, fun hh' h1 _ => by cases h1; show (upd s.pc hh _ hh).accepted = true; rw [upd_same]; rfl⟩)
+        (Or.inl ⟨upd_same _ _ _, fun hh' h1 _ => by
+          cases h1
+          exact ⟨by show (upd s.pc hh _ hh).accepted = true; rw [upd_same]; rfl,
+                 by show Ev.hacc hh ∈ s.tr ++ [Ev.hacc hh]; simp⟩⟩)
       intro _; exact upd_other _ _ hown_ne
     · have hroot : s.cerr 0 = true := by
         unfold canCreate at hcan
         rw [H.nw, validWL_nil] at hcan
         simpa using hcan
       have hs' : submitHandler g s y (some hh) true next =
-          { s with pc := upd s.pc hh PC.rejected, cerr := upd s.cerr (g.ctx (g.tryd y).owner) true, tg := upd s.tg y TG.done } := by
+          emit { s with pc := upd s.pc hh PC.rejected, cerr := upd s.cerr (g.ctx (g.tryd y).owner) true,
+                        tg := upd s.tg y TG.done } (.hrej hh) := by
         unfold submitHandler; simp [hcan]
       rw [hs']
       refine inv_handler_rej hI H (by omega) hn5 hne1 hact hroot rfl rfl rfl rfl rfl ?_
-      apply mkY _ hs'.symm rfl
+      apply mkY _ [.hrej hh] hs'.symm rfl (by simp)
         (fun u hu => by
           show (upd s.pc hh PC.rejected u).accepted = true
           rw [upd_apply]; split
@@ -2192,7 +2301,7 @@ theorem inv_submitHandler {g : Graph} {s : St} (hI : Inv g s) {y : Nat} (hy : y 
         (fun X h => by
           show upd s.cerr _ true X = true
           rw [upd_apply]; split <;> simp [h])
-        (Or.inr ⟨upd_same _ _ _, upd_same _ _ _⟩)
+        (Or.inr ⟨upd_same _ _ _, upd_same _ _ _, hh, rfl, by show Ev.hrej hh ∈ s.tr ++ [Ev.hrej hh]; simp⟩)
       intro h; exact absurd (upd_same _ _ _) h
 
 theorem done_false_of_not_true {tr : List Ev} {b : Nat} (h : hasDone tr b) (hn : Ev.done b true ∉ tr) :
@@ -2200,6 +2309,10 @@ theorem done_false_of_not_true {tr : List Ev} {b : Nat} (h : hasDone tr b) (hn :
   rcases h with h | h
   · exact absurd h hn
   · exact h
+
+/-- after a refused submission every handler of the try counts as "seen" -/
+theorem subSeen_of_rej {g : Graph} {s' : St} {y h hh : Nat} (hm : hh ∈ g.handlers y)
+    (hr : Ev.hrej hh ∈ s'.tr) : subSeen g s' y h := Or.inr ⟨hh, hm, hr⟩
 
 theorem inv_stepTry {g : Graph} {s s' : St} {y : Nat} (hw : WF g) (hI : Inv g s)
     (h : stepTry g s y = some s') : Inv g s' := by
@@ -2229,12 +2342,17 @@ theorem inv_stepTry {g : Graph} {s s' : St} {y : Nat} (hw : WF g) (hI : Inv g s)
         nw := (hw.hfin a b).2.2.2.2
         cr := by intro tr tgv; unfold created; rw [b]; simp [TG.rank]
         sb := by intro _; unfold submitted; rw [b]; exact hv.1
-        na := by intro tr; unfold acceptedEv; rw [b]; simp }
-    · intro s' _ hm1 hm2 hout
-      rcases hout with ⟨ht, ha⟩ | ⟨ht, hc⟩
+        na := by intro tr; unfold acceptedEv; rw [b]; simp
+        ih := by unfold isHandler; rw [b] }
+    · intro s' _ hm1 hm2 hm3 hout
+      rcases hout with ⟨ht, ha⟩ | ⟨ht, hc, hh, hho, hrj⟩
       · rw [ht]
-        refine ⟨fun _ h hf => Or.inl (ha h hf rfl), fun h => ?_, fun h => ?_⟩ <;> simp [TG.rank] at h
-      · exact ⟨fun _ _ _ => Or.inr hc, fun _ _ _ _ => Or.inr hc, fun _ _ _ _ => Or.inr hc⟩
+        refine ⟨fun _ h hf => Or.inl (ha h hf rfl).1, fun h => ?_, fun h => ?_,
+          fun _ h hf => Or.inl (ha h hf rfl), fun h => ?_, fun h => ?_⟩ <;> simp [TG.rank] at h
+      · have hm : hh ∈ g.handlers y := mem_handlers.mpr (Or.inl hho)
+        exact ⟨fun _ _ _ => Or.inr hc, fun _ _ _ _ => Or.inr hc, fun _ _ _ _ => Or.inr hc,
+          fun _ _ _ => subSeen_of_rej hm hrj, fun _ _ _ _ => subSeen_of_rej hm hrj,
+          fun _ _ _ _ => subSeen_of_rej hm hrj⟩
   · -- fail
     rename_i v htg
     have hy := hy (by rw [htg]; simp)
@@ -2258,24 +2376,33 @@ theorem inv_stepTry {g : Graph} {s s' : St} {y : Nat} (hw : WF g) (hI : Inv g s)
           intro _; unfold submitted; rw [b]
           apply done_false_of_not_true hv.1
           intro hd; have := hv.2.mpr hd; rw [hvf] at this; cases this
-        na := by intro tr; unfold acceptedEv; rw [b]; simp }
-    · intro s' _ hm1 hm2 hout
+        na := by intro tr; unfold acceptedEv; rw [b]; simp
+        ih := by unfold isHandler; rw [b] }
+    · intro s' _ hm1 hm2 hm3 hout
       have hold : ∀ h, (g.tryd y).fin = some h →
           (s'.pc h).accepted = true ∨ s'.cerr (g.ctx (g.tryd y).owner) = true := by
         intro h hf
         rcases Y.finAcc (by rw [htg]; simp [TG.rank]) h hf with hh | hh
         · exact Or.inl (hm1 _ hh)
         · exact Or.inr (hm2 _ hh)
-      rcases hout with ⟨ht, ha⟩ | ⟨ht, hc⟩
+      have holdS : ∀ h, (g.tryd y).fin = some h → subSeen g s' y h := fun h hf =>
+        subSeen_mono hm3 hm1 (Y.finSub (by rw [htg]; simp [TG.rank]) h hf)
+      rcases hout with ⟨ht, ha⟩ | ⟨ht, hc, hh, hho, hrj⟩
       · rw [ht]
-        refine ⟨fun _ => hold, fun _ hd h hf => ?_, fun h => ?_⟩
-        · have hvf : v = false := by
-            cases v
-            · rfl
-            · exact absurd ⟨hv.2.mp rfl, hd⟩ (hI.ti _).duniq
-          exact Or.inl (ha h hf (by rw [hvf]; rfl))
+        have hvf : Ev.done (g.tryd y).body false ∈ s.tr → v = false := by
+          intro hd
+          cases v
+          · rfl
+          · exact absurd ⟨hv.2.mp rfl, hd⟩ (hI.ti _).duniq
+        refine ⟨fun _ => hold, fun _ hd h hf => ?_, fun h => ?_, fun _ => holdS, fun _ hd h hf => ?_, fun h => ?_⟩
+        · exact Or.inl (ha h hf (by rw [hvf hd]; rfl)).1
         · simp [TG.rank] at h
-      · exact ⟨fun _ _ _ => Or.inr hc, fun _ _ _ _ => Or.inr hc, fun _ _ _ _ => Or.inr hc⟩
+        · exact Or.inl (ha h hf (by rw [hvf hd]; rfl))
+        · simp [TG.rank] at h
+      · have hm : hh ∈ g.handlers y := mem_handlers.mpr (Or.inr (Or.inl hho))
+        exact ⟨fun _ _ _ => Or.inr hc, fun _ _ _ _ => Or.inr hc, fun _ _ _ _ => Or.inr hc,
+          fun _ _ _ => subSeen_of_rej hm hrj, fun _ _ _ _ => subSeen_of_rej hm hrj,
+          fun _ _ _ _ => subSeen_of_rej hm hrj⟩
   · -- success
     rename_i v htg
     have hy := hy (by rw [htg]; simp)
@@ -2295,8 +2422,9 @@ theorem inv_stepTry {g : Graph} {s s' : St} {y : Nat} (hw : WF g) (hI : Inv g s)
         nw := (hw.hsucc a b).2.2.2.2
         cr := by intro tr tgv; unfold created; rw [b]; simp [TG.rank]
         sb := by intro _; unfold submitted; rw [b]; exact hv.2.mp hsel
-        na := by intro tr; unfold acceptedEv; rw [b]; simp }
-    · intro s' _ hm1 hm2 hout
+        na := by intro tr; unfold acceptedEv; rw [b]; simp
+        ih := by unfold isHandler; rw [b] }
+    · intro s' _ hm1 hm2 hm3 hout
       have hold1 : ∀ h, (g.tryd y).fin = some h →
           (s'.pc h).accepted = true ∨ s'.cerr (g.ctx (g.tryd y).owner) = true := by
         intro h hf
@@ -2309,10 +2437,20 @@ theorem inv_stepTry {g : Graph} {s s' : St} {y : Nat} (hw : WF g) (hI : Inv g s)
         rcases Y.failAcc (by rw [htg]; simp [TG.rank]) hd h hf with hh | hh
         · exact Or.inl (hm1 _ hh)
         · exact Or.inr (hm2 _ hh)
-      rcases hout with ⟨ht, ha⟩ | ⟨ht, hc⟩
-      · refine ⟨fun _ => hold1, fun _ => hold2, fun _ hd h hf => ?_⟩
-        exact Or.inl (ha h hf (hv.2.mpr hd))
-      · exact ⟨fun _ _ _ => Or.inr hc, fun _ _ _ _ => Or.inr hc, fun _ _ _ _ => Or.inr hc⟩
+      have hold1S : ∀ h, (g.tryd y).fin = some h → subSeen g s' y h := fun h hf =>
+        subSeen_mono hm3 hm1 (Y.finSub (by rw [htg]; simp [TG.rank]) h hf)
+      have hold2S : Ev.done (g.tryd y).body false ∈ s.tr → ∀ h, (g.tryd y).fail = some h →
+          subSeen g s' y h := fun hd h hf =>
+        subSeen_mono hm3 hm1 (Y.failSub (by rw [htg]; simp [TG.rank]) hd h hf)
+      rcases hout with ⟨ht, ha⟩ | ⟨ht, hc, hh, hho, hrj⟩
+      · refine ⟨fun _ => hold1, fun _ => hold2, fun _ hd h hf => ?_, fun _ => hold1S, fun _ => hold2S,
+          fun _ hd h hf => ?_⟩
+        · exact Or.inl (ha h hf (hv.2.mpr hd)).1
+        · exact Or.inl (ha h hf (hv.2.mpr hd))
+      · have hm : hh ∈ g.handlers y := mem_handlers.mpr (Or.inr (Or.inr hho))
+        exact ⟨fun _ _ _ => Or.inr hc, fun _ _ _ _ => Or.inr hc, fun _ _ _ _ => Or.inr hc,
+          fun _ _ _ => subSeen_of_rej hm hrj, fun _ _ _ _ => subSeen_of_rej hm hrj,
+          fun _ _ _ _ => subSeen_of_rej hm hrj⟩
   · cases h
 
 /-! ### The main thread -/
@@ -2349,7 +2487,8 @@ theorem inv_main_log {g : Graph} {s s' : St} (hI : Inv g s) {es : List Ev}
     (hnr : ∀ p i b, Ev.ret p i b ∉ es)
     (hok : ∀ e ∈ es, Ok g s.tr e) (hmi : MI g s') : Inv g s' := by
   have hfd : FreshDone s.tr es := fun u b h => absurd h (hnd u b)
-  refine ⟨?_, ?_, ?_, hmi, ?_, ?_, by rw [htg']; exact hI.tgr, i3_same hI.i3 htr' hpc' hcerr'⟩
+  refine ⟨?_, ?_, ?_, hmi, ?_, ?_, by rw [htg']; exact hI.tgr, i3_same hI.i3 htr' hpc' hcerr',
+    ha_frame hI htr' (fun h hm => hnt h _ hm (by simp [touches])) (by rw [hpc']; exact fun _ h => h)⟩
   · refine ti_frame_all hI htr' hfd (by rw [hcerr']; exact fun _ h => h)
       (fun _ => by rw [htg']; exact Nat.le_refl _) (fun _ => False) ?_ ?_
     · intro u _; exact ⟨by rw [hpc'], hnt u⟩
@@ -2440,7 +2579,9 @@ theorem inv_stepMain {g : Graph} {s s' : St} (hw : WF g) (hI : Inv g s)
             · subst h1; rw [hcidle] at ha; cases ha
             · rw [hpc', upd_other _ _ h1]; exact ⟨ha, fun h => Or.inl h⟩
           · intro X hX; rw [hcerr'] at hX; exact Or.inl hX
-        refine ⟨?_, ?_, ?_, ?_, ?_, ?_, by rw [htg']; exact hI.tgr, hi3⟩
+        refine ⟨?_, ?_, ?_, ?_, ?_, ?_, by rw [htg']; exact hI.tgr, hi3,
+          ha_frame hI htr' (by intro h hm; cases acc <;> simp at hm)
+            (fun u hu => by rw [hpc']; exact accepted_upd (by rw [hcidle]; intro h; cases h) u hu)⟩
         · refine ti_frame_all hI htr' hfd hce (fun _ => by rw [htg']; exact Nat.le_refl _) (fun u => u = t) ?_ ?_
           · intro u hu
             refine ⟨by rw [hpc', upd_other _ _ hu], ?_⟩
